@@ -15,28 +15,33 @@ def showWDays : Option (List WDay) → String
   | none => "-"
   | some l => "[" ++ ",".intercalate (l.map (fun w => s!"{w.1}/{showOptInt w.2}")) ++ "]"
 
-def showDate (txt : List Char) : String :=
+def showPo (po : ParseOpts) : String := s!"|i{showBool po.ignoretz}t{showBool po.tzinfos}"
+
+/-- a date value and the options its `parser.parse` call gets (`ignoretz` makes a `Z` value naive) -/
+def showDate (txt : List Char) (po : ParseOpts) : String :=
   match parseCompact txt with
-  | .compact y m d hh mm ss z => s!"c:{y},{m},{d},{hh},{mm},{ss},{showBool z}"
+  | .compact y m d hh mm ss z => s!"c:{y},{m},{d},{hh},{mm},{ss},{showBool (z && !po.ignoretz)}" ++ showPo po
   | .other _ => "o"
 
 def showArgs (a : RArgs) : String :=
   " ".intercalate [showOptInt a.freq, showOptInt a.interval, showOptInt a.count, showOptInt a.wkst,
-    (match a.untilV with | none => "-" | some u => showDate u),
+    (match a.untilV with | none => "-" | some u => showDate u.1 u.2),
     showOptList a.bysetpos, showOptList a.bymonth, showOptList a.bymonthday, showOptList a.byyearday,
     showOptList a.byeaster, showOptList a.byweekno, showWDays a.byweekday, showOptList a.byhour,
     showOptList a.byminute, showOptList a.bysecond]
 
-def showDtstart : Option (List Char × List (List Char)) → String
-  | none => "-"
-  | some (v, parms) => showDate v ++ (if parms.any (fun p => startsWith p (lit "TZID=")) then "+tzid" else "")
+/-- the start every rule is built with: the DTSTART line's value, else the `dtstart=` keyword -/
+def showDtstart (kw : Bool) : Option DateV → String
+  | none => if kw then "kw" else "-"
+  | some (v, parms, po) => showDate v po ++ (if parms.any (fun p => startsWith p (lit "TZID=")) then "+tzid" else "")
 
-def showParsed : Parsed → String
-  | .rule a dt => "rule " ++ showDtstart dt ++ " {" ++ showArgs a ++ "}"
-  | .set rr ex rd exd dt rdd =>
-      "set " ++ showDtstart dt ++ " " ++ showBool rdd ++ " rr=" ++ "|".intercalate (rr.map (fun a => "{" ++ showArgs a ++ "}")) ++
+def showParsed (kw : Bool) : Parsed → String
+  | .rule a dt cache => "rule " ++ showDtstart kw dt ++ " cache=" ++ showBool cache ++ " {" ++ showArgs a ++ "}"
+  | .set rr ex rd exd dt rdd cache =>
+      "set " ++ showDtstart kw dt ++ " " ++ showBool rdd ++ " cache=" ++ showBool cache ++
+      " rr=" ++ "|".intercalate (rr.map (fun a => "{" ++ showArgs a ++ "}")) ++
       " ex=" ++ "|".intercalate (ex.map (fun a => "{" ++ showArgs a ++ "}")) ++
-      " rd=" ++ Py.showList showDate rd ++ " exd=" ++ Py.showList (fun p => showDate p.1) exd
+      " rd=" ++ Py.showList (fun p => showDate p.1 p.2) rd ++ " exd=" ++ Py.showList (fun p => showDate p.1 p.2.2) exd
 
 def parseWDays? (s : String) : Option (Option (List WDay)) :=
   if s == "-" then some none else
@@ -57,14 +62,15 @@ def six? (s : String) : Option (Option (Nat × Nat × Nat × Nat × Nat × Nat))
 def handle (op : String) (args : List String) : Option String :=
   match op, args with
   | "rrs.parse", [o, h] => do
-      -- o = three flags unfold/forceset/compatible + dtstart-keyword flag, e.g. "0010"
+      -- o = flags unfold/forceset/compatible/dtstart-keyword/ignoretz/tzinfos/cache, e.g. "0010100"
       let s ← parseHexString? h
       let f := o.toList.map (· == '1')
-      let opts : Opts := { unfold := f.getD 0 false, forceset := f.getD 1 false, compatible := f.getD 2 false }
-      some (Py.showR showParsed (parseRfc s.toList opts (f.getD 3 false)))
+      let opts : Opts := { unfold := f.getD 0 false, forceset := f.getD 1 false, compatible := f.getD 2 false,
+                           ignoretz := f.getD 4 false, tzinfos := f.getD 5 false, cache := f.getD 6 false }
+      some (Py.showR (showParsed (f.getD 3 false)) (parseRfc s.toList opts (f.getD 3 false)))
   | "rrs.line", [h] => do
       let s ← parseHexString? h
-      some (Py.showR showArgs (parseRRuleLine (ICal.upper s.toList)))
+      some (Py.showR showArgs (parseRRuleLine {} (ICal.upper s.toList)))
   | "rrs.compact", [h] => do
       let s ← parseHexString? h
       some (match parseCompact s.toList with
